@@ -207,7 +207,9 @@ def build():
         f.update(over)
         return ObjOf("Parallel", **f)
 
-    GH = dict(NY=INT, JHI=INT)
+    # ERRQ (ghost): a failed job (a task error, or the failure of the input iterable registered by dispatch_one_batch) sits in the queue.
+    # Registering a failure sets _aborting (BatchCompletionCallBack._register_outcome, part 1).
+    GH = dict(NY=INT, JHI=INT, ERRQ=BOOL)
 
     def setup(interp, env):
         ctx = interp.ctx
@@ -219,8 +221,11 @@ def build():
     p.models["Parallel._wait_retrieval"] = lambda i, r, a, k: BOOL.fresh(i.ctx, "wait")
 
     def raise_error_fast(interp, recv, args, kwargs):
+        """contract of _raise_error_fast (part 4): raises the exception of the first failed job still queued, returns when there is none"""
         interp.ctx.events.append(("_raise_error_fast",))
-        if interp.ctx.choose(2, "error-job-found") == 1:
+        errq = interp.ctx.ghost.get("ERRQ")
+        found = interp.ctx.choose(2, "error-job-found") == 1 if errq is None else interp.ctx.branch(ops.truth(errq), "error-job-queued")
+        if found:
             e = SExc(BUILTIN_EXC["ValueError"], ())
             interp.ctx.ghost["TASK_EXC"] = e
             raise PyRaise(e)
@@ -234,8 +239,10 @@ def build():
     retrieve = Contract(
         PAR, "Parallel._retrieve", variant="ordered", props=["C01", "C16", "C04"], ghost=GH, setup=setup, generator=True,
         params=dict(self=parallel()),
-        requires=["jobs_tile(self, NY, JHI)", "lock_depth() == 0"],
-        ensures={"lock_released": "lock_depth() == 0", "queued_jobs_continue_the_output": "jobs_tile(self, NY, JHI)"},
+        requires=["jobs_tile(self, NY, JHI)", "lock_depth() == 0", "implies(ERRQ, self._aborting)"],
+        ensures={"lock_released": "lock_depth() == 0", "queued_jobs_continue_the_output": "jobs_tile(self, NY, JHI)",
+                 # C04: a registered failure is never swallowed - the retrieval cannot end normally while a failed job is queued
+                 "a_queued_failure_is_raised_not_dropped": "not ERRQ"},
         exsures={"ValueError": {"the_tasks_own_exception": "same_exc(exc)"}},
         loops={
             1: Loop("while self._wait_retrieval()",
@@ -314,7 +321,7 @@ def build():
     p.models["jobsset_iter.__next__"] = jobsset_next
     p.write_hooks[("TRef", "_completion_timeout_counter")] = lambda interp, obj, attr, v: interp.ctx.events.append(("reset-timeout-counter", obj))
 
-    GHU = dict(NY=INT, DELIVERED=DSET)
+    GHU = dict(NY=INT, DELIVERED=DSET, ERRQ=BOOL)
 
     def setup_u(interp, env):
         setup(interp, env)
@@ -323,8 +330,8 @@ def build():
     p.add(Contract(
         PAR, "Parallel._retrieve", variant="unordered", props=["C16", "C01"], ghost=GHU, setup=setup_u, generator=True,
         params=dict(self=parallel(return_ordered=False)),
-        requires=["jobs_fresh(self)", "lock_depth() == 0"],
-        ensures={"lock_released": "lock_depth() == 0", "queued_jobs_still_undelivered": "jobs_fresh(self)"},
+        requires=["jobs_fresh(self)", "lock_depth() == 0", "implies(ERRQ, self._aborting)"],
+        ensures={"lock_released": "lock_depth() == 0", "queued_jobs_still_undelivered": "jobs_fresh(self)", "a_queued_failure_is_raised_not_dropped": "not ERRQ"},
         exsures={"ValueError": {"the_tasks_own_exception": "same_exc(exc)"}},
         loops={
             1: Loop("while self._wait_retrieval()",
